@@ -241,6 +241,12 @@ pub fn run_semantic(prop: &str, trace: &Trace, env: &Env, opts: &SemOpts) -> Run
             }
             Op::SessionRerun => {
                 // execute_session once more without a new text: a one-line text is evaluated again, at this instant
+                if !last_text.contains_key(&ev.actor) && w.sessions.contains_key(&ev.actor) {
+                    // before any text was set: nothing to evaluate, nothing to judge - but the call happened
+                    let _ = w.session_rerun(ev.actor, &ev.clock);
+                    rep.count("session.evaluated_before_any_text");
+                    continue;
+                }
                 let (line, rendered_line) = match last_text.get(&ev.actor) { Some((ts, rl)) if ts.lines.len() == 1 && rl.len() == 1 && w.sessions.contains_key(&ev.actor) => (ts.lines[0].clone(), rl[0].clone()), _ => continue };
                 let (o, clk) = w.session_rerun(ev.actor, &ev.clock);
                 rep.evaluations += 1;
